@@ -11,12 +11,22 @@
 
    minimiser_domain t (Spec/Table.v): keys and masks are 32-bit with no key bit outside the mask, every
    entry has at least one source direction, and the table is listed in increasing order of generality
-   or is orthogonal (no two entries match a common 32-bit key).  The empty table is in the domain. *)
+   or is orthogonal (no two entries match a common 32-bit key).  The empty table is in the domain.
+   Generality is defined in the Spec (number of bits 0..31 clear in key and mask), not by rig's kernel
+   (C04_generality_is_spec).  The key-range and no-stray-key-bit clauses are NOT needed by the proofs
+   (C04_ordered_covering_route_eq_loose, minimiser_domain_loose); the source-direction clause and the
+   order clause are (C04_empty_sources_refuted, C04_unsorted_overlapping_refuted).
+
+   Not covered by a theorem (harness only): independence of successive calls in one interpreter (the
+   `seq` stream; the model run afresh per call is the specification) and ordered_covering started from a
+   caller-supplied aliases dictionary (two-round correspondence).  The vocabulary of the statements
+   (method_ok, full_size, best_size, table_of, route_eq_matched) is defined in Spec/Table.v. *)
 From Coq Require Import ZArith List Bool.
 Require Import Rig.Generated.GenTable Rig.Generated.GenTableEnums.
 Require Import Rig.Generated.GenTableFront.
 Require Import Rig.Model.Base Rig.Model.Table Rig.Model.TableFront Rig.Spec.Table.
-Require Import Rig.Proofs.TableCheck Rig.Proofs.Table Rig.Proofs.TableIns Rig.Proofs.TableOC3 Rig.Proofs.TableFront.
+Require Import Rig.Proofs.TableCheck Rig.Proofs.Table Rig.Proofs.TableBits Rig.Proofs.TableIns Rig.Proofs.TableOC3
+  Rig.Proofs.TableFront.
 Import ListNotations.
 Open Scope Z_scope.
 
@@ -41,6 +51,38 @@ Theorem C04_remove_default_route_eq :
       | Some tl => if tl <? len full then Failed (len full) else Ok full
       end.
 Proof. exact remove_default_spec. Qed.
+
+(* the regenerated _get_generality computes the Spec's generality: a change of rig's kernel breaks this
+   proof instead of silently moving the domain *)
+Theorem C04_generality_is_spec : forall e, gen_of e = spec_generality e.
+Proof. exact gen_of_spec. Qed.
+
+(* U -- the same statements hold without the key-range and stray-key-bit clauses of the domain (an entry
+   with a key bit outside its mask matches nothing, before and after) *)
+Theorem C04_ordered_covering_route_eq_loose :
+  forall t, minimiser_domain_loose t -> method_ok oc_minimise t.
+Proof. exact oc_minimise_loose_spec. Qed.
+
+Theorem C04_minimise_table_route_eq_loose :
+  forall t target,
+  minimiser_domain_loose t ->
+  match minimise_table t target with
+  | Ok r => route_eq t r /\ len r <= len t /\ (forall tl, target = Some tl -> len r <= tl)
+  | Failed n =>
+      exists tl, target = Some tl /\ tl < n /\
+                 n = Z.min (Z.min (len t) (full_size remove_default t)) (full_size oc_minimise t)
+  | OtherError | OutOfFuel => False
+  end.
+Proof. exact minimise_table_loose_spec. Qed.
+
+(* R -- the source-direction clause is necessary for the property as worded: an entry with NO source
+   direction is merged with a straight-through entry, the merge is default-routed away, and its key is
+   matched by nothing although it was not straight through from a single link.  (No packet is affected:
+   nothing arrives for an entry without sources; hence a guard, not a defect.) *)
+Theorem C04_empty_sources_refuted :
+  table32 ex_nosrc /\ sorted_by_generality ex_nosrc
+  /\ oc_minimise ex_nosrc None = Ok [] /\ minimise_table ex_nosrc None = Ok [] /\ ~ route_eq ex_nosrc [].
+Proof. exact empty_sources_witness. Qed.
 
 (* U -- the merging stage of ordered covering (ordered_covering(..., no_raise=True) from an empty
    aliases dictionary), any target: it terminates with a table in which every key matched by the input
@@ -241,6 +283,24 @@ Example C04_domain_satisfiable :
   minimiser_domain ex_table
   /\ oc_minimise ex_table None = Ok [mkEntry 8 2 15 16777216; mkEntry 4 0 14 16777216].
 Proof. exact ex_table_domain. Qed.
+
+(* a generality-sorted, genuinely overlapping table of the domain on which refinement prunes the merge
+   (the up-check removes 1000, which would be hidden behind X000 of another route) *)
+Example C04_overlapping_refinement_example :
+  minimiser_domain ex_overlap
+  /\ (exists a b k, In a ex_overlap /\ In b ex_overlap /\ a <> b /\ matches a k = true /\ matches b k = true)
+  /\ all_merges ex_overlap = [[0; 1; 2]%nat]
+  /\ (exists m, best_merge ex_overlap [] = Ok m /\ m_entries m = [0; 1]%nat)
+  /\ oc_minimise ex_overlap None
+     = Ok [mkEntry 4 8 4294967295 16777216; mkEntry 2 0 4294967287 16777216; mkEntry 4 0 4294967288 16777216].
+Proof. exact overlap_refined_example. Qed.
+
+(* the empty table; a failure with the default methods reporting the best size reached; a met target *)
+Example C04_front_end_examples :
+  minimiser_domain [] /\ minimise_table [] None = Ok [] /\ minimise_tables [((0, 0), [])] TNone = TablesOk []
+  /\ minimise_table ex_table (Some 0) = Failed 2
+  /\ minimise_table ex_table (Some 2) = Ok [mkEntry 8 2 15 16777216; mkEntry 4 0 14 16777216].
+Proof. exact front_end_examples. Qed.
 
 (* the validator accepts a genuine merge and rejects a wrong one (it is not constantly false/true) *)
 Example C04_validator_discriminates :
